@@ -427,4 +427,11 @@ example : foldHeaderLine ([], [], []) [67, 111, 110, 116, 101, 110, 116, 45, 76,
 example : (serve { inp := [80, 79, 83, 84, 32, 47, 97, 32, 72, 84, 84, 80, 47, 49, 46, 49, 13, 10, 67, 111, 110, 116, 101, 110, 116, 45, 76, 101, 110, 103, 116, 104, 32, 58, 32, 53, 13, 10, 13, 10, 104, 101, 108, 108, 111, 71, 69, 84, 32, 47, 115, 32, 72, 84, 84, 80, 47, 49, 46, 49, 13, 10, 13, 10] }).toOption.map
     (fun r => (r.2.length, r.1.closed)) = some (0, true) := by decide
 
+-- a first header line that starts with a blank continues nothing: the block ends there, the connection is closed,
+-- neither the request nor the bytes of its body are dispatched (c2e6d14); after a field the same line is its continuation
+example : foldHeaderLine ([], [], []) [32, 67, 111, 110, 116, 101, 110, 116, 45, 76, 101, 110, 103, 116, 104, 58, 32, 53, 13] = none := by decide
+example : (foldHeaderLine ([], [88], [97]) [32, 67, 111, 110, 116, 101, 110, 116, 45, 76, 101, 110, 103, 116, 104, 58, 32, 53, 13]).map (fun st => st.2.1) = some [88] := by decide
+example : (serve { inp := [71, 69, 84, 32, 47, 104, 100, 114, 32, 72, 84, 84, 80, 47, 49, 46, 49, 13, 10, 32, 67, 111, 110, 116, 101, 110, 116, 45, 76, 101, 110, 103, 116, 104, 58, 32, 53, 13, 10, 72, 111, 115, 116, 58, 32, 120, 13, 10, 13, 10, 104, 101, 108, 108, 111, 71, 69, 84, 32, 47, 115, 32, 72, 84, 84, 80, 47, 49, 46, 49, 13, 10, 13, 10] }).toOption.map
+    (fun r => (r.2.length, r.1.closed)) = some (0, true) := by decide
+
 end C09
